@@ -985,6 +985,79 @@ fn through_any_class(r: &mut Report, w: &World, nests: &Nests<NA>, stream: &str)
 	if answers.len() == asks.len() { r.case(&format!("any-class-{stream}"), format!("CAnyClass {} {} {} {}", g_jar(&j), g_table(&w.t), glist(asks.iter().map(|a| gstr(a))), glist(answers.iter().map(|a| gstr(a))))); }
 }
 
+/// class-file versions (major, minor) handed out to the classes of a jar: equal majors with different minors, a minor
+/// larger than the minor of a smaller major, 45.3, the largest version duke reads (67.0)
+const CREATED_VERSIONS: [(u16, u16); 14] = [(52, 0), (52, 0), (50, 0), (50, 3), (50, 65535), (51, 0), (51, 2), (45, 3), (45, 0), (46, 65535), (61, 0), (55, 1), (49, 7), (67, 0)];
+
+/// Round 7: the classes nest_jar CREATES for missing enclosing classes, as class files.  Every class of the world's jar
+/// gets its own (major, minor) version; after nest_jar the first |output| - |input| class entries are read back with the
+/// independent parser.  Oracle (implementation alone): exactly the missing enclosing classes of the reference nesting are
+/// created, in creation order, each with the SMALLEST version of the jar (major first, then minor), access flags
+/// ACC_PUBLIC only, super class java/lang/Object, no interfaces, fields or methods.  Model: CCreated.
+fn through_created(r: &mut Report, rng: &mut Rng, w: &World, nests: &Nests<NA>, remap: bool, stream: &str) {
+	if w.big || w.j.is_empty() { return; }
+	let (t, j) = (&w.t, &w.j);
+	let base = *rng.pick(&CREATED_VERSIONS[..]);
+	let vs: Vec<(u16, u16)> = j.iter().map(|_| if rng.chance(1, 3) { (base.0, if base.0 >= 67 { 0 } else { *rng.pick(&[0u16, 1, 3, 65535][..]) }) /* duke's reader rejects versions above 67.0 */ } else { *rng.pick(&CREATED_VERSIONS[..]) }).collect();
+	let mut input = vec![];
+	for (c, (major, minor)) in j.iter().zip(&vs) {
+		let mut b = build(c);
+		b[4..6].copy_from_slice(&minor.to_be_bytes());
+		b[6..8].copy_from_slice(&major.to_be_bytes());
+		input.push((entry_name(&c.name), InEntry::Class(b)));
+	}
+	let vtxt = format!("\nclass-file versions (major.minor) of the jar classes, in entry order: {}\n", vs.iter().map(|(a, b)| format!("{a}.{b}")).collect::<Vec<_>>().join(" "));
+	let g_vs = glist(vs.iter().map(|(a, b)| format!("({a}, {b})")));
+	let stream = format!("created-{stream}");
+	let view = jar_view(j);
+	let rn = ref_nesting(&view, t);
+	let out = match impl_nest_jar_raw(remap, input, nests.clone()) {
+		Err(p) => { let what = format!("nest_jar panicked: {p}"); r.violation(what.clone(), jar_replay(&what, w, remap, &vtxt)); return; }
+		Ok(None) => { r.count("created_nest_jar_err"); r.case(&stream, format!("CCreated {} {} {} {} Err", gbool(remap), g_vs, g_jar(j), g_table(t))); return; }
+		Ok(Some(o)) => o,
+	};
+	if !acyclic(&rn.applied) { return; }   // reported by through_jar
+	let fix = index(&rn.applied);
+	let f = |c: &S| if remap { ref_tr(&fix, c).expect("acyclic") } else { c.clone() };
+	// two classes under one name: the later entry replaces the earlier one; outside the hypotheses (see through_jar)
+	let mut names: std::collections::HashSet<S> = std::collections::HashSet::new();
+	if !rn.created.iter().chain(j.iter().map(|c| &c.name)).all(|c| names.insert(f(c))) { r.count("created_two_classes_one_name(not compared)"); return; }
+	let classes: Vec<&Vec<u8>> = out.iter().filter_map(|(_, e)| if let OutEntry::Class(b) = e { Some(b) } else { None }).collect();
+	let mut problems: Vec<String> = vec![];
+	if classes.len() != j.len() + rn.created.len() {
+		problems.push(format!("{} class entries in the output, expected the {} classes of the jar and {} created enclosing classes ({})", classes.len(), j.len(), rn.created.len(), rn.created.iter().map(|c| show(c)).collect::<Vec<_>>().join(", ")));
+	}
+	let min = *vs.iter().min().expect("non-empty jar");   // tuple order: major, then minor
+	let k = classes.len().saturating_sub(j.len());
+	let mut g_heads: Vec<String> = vec![];
+	for (i, b) in classes.iter().take(k).enumerate() {
+		let Ok(rc) = raw::parse(b) else { problems.push(format!("created class #{i} is rejected by the independent parser")); continue };
+		let Ok(facts) = facts_from_raw(&rc) else { problems.push(format!("created class #{i} is rejected by the independent parser (facts)")); continue };
+		let name = facts.name.code_points();
+		g_heads.push(format!("(mkHeader ({}, {}) {} {} {} {} {} {})", rc.major, rc.minor, rc.access, gstr(&name), gopt(facts.super_class.as_ref().map(|x| gstr(&x.code_points()))),
+			glist(facts.interfaces.iter().map(|x| gstr(&x.code_points()))), facts.fields.len(), facts.methods.len()));
+		match rn.created.get(i) {
+			None => {}
+			Some(c) => {
+				if name != f(c) { problems.push(format!("created class #{i} is named {}, expected {}", show(&name), show(&f(c)))); }
+				if (rc.major, rc.minor) != min { problems.push(format!("created class {} has class-file version {}.{}, the smallest version in the jar is {}.{}", show(&name), rc.major, rc.minor, min.0, min.1)); }
+				if rc.access != 0x0001 { problems.push(format!("created class {} has access flags {:#06x}, expected ACC_PUBLIC alone (0x0001)", show(&name), rc.access)); }
+				let want_super = f(&cps_str(OBJECT));
+				if facts.super_class.as_ref().map(|x| x.code_points()) != Some(want_super.clone()) { problems.push(format!("created class {} extends {:?}, expected {}", show(&name), facts.super_class.as_ref().map(|x| x.to_string_lossy()), show(&want_super))); }
+				if !facts.interfaces.is_empty() || !facts.fields.is_empty() || !facts.methods.is_empty() { problems.push(format!("created class {} has {} interfaces, {} fields, {} methods; expected an empty class", show(&name), facts.interfaces.len(), facts.fields.len(), facts.methods.len())); }
+			}
+		}
+	}
+	if !problems.is_empty() {
+		let what = format!("the enclosing classes nest_jar creates differ from the documented ones (one per missing enclosing class, smallest class-file version of the jar, public, extends java/lang/Object, empty): {}", problems.iter().take(4).cloned().collect::<Vec<_>>().join(" | "));
+		r.violation(what.clone(), jar_replay(&what, w, remap, &vtxt));
+	}
+	r.count(if k == 0 { "created_none" } else { "created_classes_read_back" });
+	if k > 0 && vs.iter().any(|v| v.0 == min.0 && v.1 != min.1) { r.count("created_version_decided_by_minor"); }
+	if k > 0 && vs.first() != Some(&min) && vs.last() != Some(&min) { r.count("created_version_minimum_in_the_middle"); }
+	if g_heads.len() == k { r.case(&stream, format!("CCreated {} {} {} {} (Ok {})", gbool(remap), g_vs, g_jar(j), g_table(t), glist(g_heads))); }
+}
+
 /// a class entry whose name does not end in `.class`: remap_jar_entry_name leaves the name alone; the class
 /// inside is still nested / remapped
 fn through_odd_entry(r: &mut Report) {
@@ -1052,6 +1125,7 @@ pub fn run(ctx: &Ctx) -> anyhow::Result<Report> {
 		if i < n_fixed { through_jar(&mut r, &w, &nests, true, stream); through_jar(&mut r, &w, &nests, false, stream); through_any_class(&mut r, &w, &nests, stream); }
 		else if i % 2 == 0 || flavor == Flavor::Valid || flavor == Flavor::Cyclic { through_jar(&mut r, &w, &nests, i % 4 != 3, stream); }
 		if i >= n_fixed && i % 4 == 0 && flavor != Flavor::Weird { through_any_class(&mut r, &w, &nests, stream); }
+		if i < n_fixed || i % 2 == 1 { through_created(&mut r, &mut rng, &w, &nests, i % 4 != 1, stream); }
 		r.eval(&format!("{}|{}", g_table(&w.t), g_mappings(&w.m)), nontrivial);
 		// text form
 		if i % 3 == 0 {
